@@ -181,6 +181,12 @@ def run_r2(repo: Repo, res: Result) -> None:
         entries = [m for k in repo.mro(cls) for m in k.methods.values() if _public(repo, m) and not m.is_abstract and m.node.returns is not None and _mentions_class(T.ann(m.module, m.node.returns), viol.fq)]
         entries = [m for m in entries if repo.lookup_method(cls, m.name) is m]
         if not entries:
+            # no return annotation: the public method that constructs the RuleViolations object
+            for k in repo.mro(cls):
+                for m in k.methods.values():
+                    if _public(repo, m) and not m.is_abstract and repo.lookup_method(cls, m.name) is m and any(isinstance(c, ast.Call) and (ci := T.ctor_class(m, c)) is not None and ci.fq == viol.fq for c in own_nodes(m.node)):
+                        entries.append(m)
+        if not entries:
             raise AnalysisError(f"{cls.fq}: no public method returning RuleViolations found")
         for entry in entries:
             verdicts: dict[str, dict[str, list]] = {f: {"good": [], "swapped": [], "unknown": []} for f in fields}
@@ -215,9 +221,15 @@ def run_r2(repo: Repo, res: Result) -> None:
                 det = it.instantiate(cls, det_arg, f"det-{world}")
                 roles = {"importer": "S" if world else "O", "importee": "O" if world else "S", "key": "S"}
                 args = []
+                arch = repo.module(EVAL_ARCH)
                 for i, p in enumerate(entry.params[1:]):
                     t = _ann(T, entry, p)
                     v = _value_of_type(it, t, roles, ("input", p.arg), src=p.arg)
+                    if not any(isinstance(sh, Ref) and sh.kind == "dict" for sh in v):
+                        # not annotated: (explicitly requested, not explicitly requested) by position, shapes from the public type aliases
+                        alias = ("ExplicitlyRequestedDependenciesByBaseModules", "NotExplicitlyRequestedDependenciesByBaseModule")[i] if i < 2 else None
+                        if alias is not None and alias in arch.constants:
+                            v = _value_of_type(it, T.ann(arch, arch.constants[alias]), roles, ("input", p.arg), src=p.arg) | V(Const(None))
                     if not any(isinstance(sh, Ref) and sh.kind == "dict" for sh in v):
                         raise AnalysisError(f"{entry.fq}: parameter `{p.arg}` is not annotated with a query result type (dict of dependencies)")
                     args.append(v)
